@@ -4,6 +4,7 @@ package main
 // on every pool object / canonical byte string and records the outcomes for Interchange.tla.
 
 import (
+	"strings"
 	"bytes"
 	"encoding/json"
 	"fmt"
@@ -175,6 +176,9 @@ func c03Drive(args []string) error {
 			}
 			raw := toBytes(in.Bytes)
 			id := fmt.Sprintf("inst:%s/v%d/f%x/c%d/%v/%s/%s", in.Layout, in.Ver, in.Flags, in.Cnt, in.Pick, in.Hdr, in.Wrap)
+			if len(in.Ord) > 0 {
+				id += "=" + strings.Join(in.Ord, "+")
+			}
 			tw.Reset(J{"obj": id, "kind": "box", "type": in.Layout})
 			c03Dec2Box(tw, raw)
 			c03Dec2File(tw, raw)
